@@ -19,8 +19,8 @@ COMMON_ASSUME = [
 REG = {}
 
 REG["C01"] = dict(
-    harnesses=[H(P, "VerifH_C01_nullScanInt32"), H(P, "VerifH_C01_nullScanWordBoundary"), H(E + "delta", "VerifH_C04_deltaInt32", max_seconds={"quick": 400, "thorough": 2400})],
-    explanation="Kernel-wise decision of the write->read path. Decided by the solver on the real code: (K1) the null-run scanner of the typed optional write path (writeRowsFuncOfOptional closure + nullIndex + bitmap): for every vector of n values, the ranges handed to the column writer are contiguous, in order, cover every row once, and carry definition level d+1 exactly for non-zero rows, including windows that cross the 64-row bitmap word boundary after all-null / all-set / alternating prefixes. (K5, shared with C04) the DELTA_BINARY_PACKED int32 encode/decode round trip for unrestricted values (first value and deltas at the int32 extremes included), one of the encodings every written value passes through; the other encodings are decided under C04. The end-to-end file round trip (reflection, Thrift, codecs, I/O) is outside the claim; bounds/indexes are decided under C05.",
+    harnesses=[H(P, "VerifH_C01_nullScanInt32"), H(P, "VerifH_C01_nullScanWordBoundary"), H(P, "VerifH_C01_dictionaryFallbackBuffer"), H(E + "delta", "VerifH_C04_deltaInt32", max_seconds={"quick": 400, "thorough": 2400})],
+    explanation="Kernel-wise decision of the write->read path. Decided by the solver on the real code: (K1) the null-run scanner of the typed optional write path (writeRowsFuncOfOptional closure + nullIndex + bitmap): for every vector of n values, the ranges handed to the column writer are contiguous, in order, cover every row once, and carry definition level d+1 exactly for non-zero rows, including windows that cross the 64-row bitmap word boundary after all-null / all-set / alternating prefixes. (K7) after a dictionary column falls back to PLAIN the buffer that takes the following values is configured for the same levels as the regular buffer (values with every level combination read back intact from both). (K5, shared with C04) the DELTA_BINARY_PACKED int32 encode/decode round trip for unrestricted values (first value and deltas at the int32 extremes included), one of the encodings every written value passes through; the other encodings are decided under C04. The end-to-end file round trip (reflection, Thrift, codecs, I/O) is outside the claim; bounds/indexes are decided under C05.",
     bounds={"quick": "n<=6 symbolic int32 rows; word-boundary windows: concrete prefix 60..63 rows x3 patterns + 2..4 symbolic rows", "thorough": "n<=10; windows up to 6 symbolic rows"},
     outside=["whole-file round trip through reflection, Thrift and codecs", "page framing, row batching, dictionary fall-back (DESIGN K2-K7 not built yet)"],
 )
